@@ -376,8 +376,15 @@ pub fn run(rep: &mut Report, tier: &str, seed: u64) {
                 let dbg = format!("{:?}", e);
                 let variant: String = dbg.chars().take_while(|c| c.is_alphanumeric()).collect();
                 rep.count(&format!("rejected:{}", variant));
-                // a generated program under a legal layout must parse: report the rejection itself
-                rep.fail("direct", &format!("C07 a syntactically valid text is rejected by the parser ({})", variant), true, json!({"text": text, "error": dbg, "model": model.pretty()}));
+                // a generated program under a legal layout must parse. The expectation is the generator's; when the
+                // parser model (position / gap / token theorems of Props/C07) rejects the text with the very same error, the
+                // layout was not legal after all: counted, not reported.
+                let want = sexp::tagged("parse-error", vec![parse_error_sexp(&e)]);
+                if want == model {
+                    rep.count(&format!("generator-expectation-not-met(model-agrees-with-implementation):rejected:{}", variant));
+                } else {
+                    rep.fail("direct", &format!("C07 a syntactically valid text is rejected by the parser ({})", variant), true, json!({"text": text, "error": dbg, "model": model.pretty()}));
+                }
             }
         }
     }
